@@ -11,6 +11,7 @@ pub mod c04_world;
 pub mod c05;
 pub mod c06;
 pub mod c07;
+pub mod c07_twohop;
 pub mod c08;
 pub mod c08_fn;
 pub mod c14;
